@@ -41,7 +41,11 @@ m('c01-loop-filter', 'C01', 'sound/transport.rs',
   'A.loop|sound::transport::Transport::increment_position', 'empty loop regions reach the wrap loops again', reverse_of='loop region')
 m('c01-loop-filter-ge', 'C01', 'sound/transport.rs',
   '.filter(|(loop_start, loop_end)| loop_end > loop_start)', '.filter(|(loop_start, loop_end)| loop_end >= loop_start)',
-  'A.loop|sound::transport::Transport::seek_to', 'the filter lets loop_end == loop_start through (still hangs)')
+  'sound::transport::Transport::', 'the filter lets loop_end == loop_start through (the wrap loops hang, seek_to divides by zero)')
+m('c01-seek-wrap', 'C01', 'sound/transport.rs',
+  '\t\t\tif position > self.position {\n\t\t\t\tif position >= loop_end {\n\t\t\t\t\tposition = loop_start + (position - loop_start) % loop_length;\n\t\t\t\t}\n\t\t\t} else if position < loop_start {\n\t\t\t\tlet distance = loop_start - position;\n\t\t\t\tposition = loop_start + (loop_length - distance % loop_length) % loop_length;\n\t\t\t}',
+  '\t\t\tif position > self.position {\n\t\t\t\twhile position >= loop_end {\n\t\t\t\t\tposition -= loop_length;\n\t\t\t\t}\n\t\t\t} else {\n\t\t\t\twhile position < loop_start {\n\t\t\t\t\tposition += loop_length;\n\t\t\t\t}\n\t\t\t}',
+  'A.loop|sound::transport::Transport::seek_to', 'a seek wraps one loop length at a time again: the trip count is whatever the caller asks for', reverse_of='wraps in one step')
 m('c01-delay-zero', 'C01', 'effect/delay.rs',
   '\t\tlet delay_time_frames =\n\t\t\t((self.delay_time.as_secs_f64() * sample_rate as f64) as usize).max(1);\n\t\tself.buffer = vec![Frame::ZERO; delay_time_frames];\n\t\tfor effect',
   '\t\tlet delay_time_frames = (self.delay_time.as_secs_f64() * sample_rate as f64) as usize;\n\t\tself.buffer = vec![Frame::ZERO; delay_time_frames];\n\t\tfor effect',
